@@ -214,6 +214,34 @@ def headers_accumulate(ctx, P):
               bool(acc) and bool(pushes) and not over, function=fp.path, sites=acc, missing=over or (None if acc else ['no entry().or_default() accumulation found']))
 
 
+def footer_tolerates_blank_lines(ctx, P):
+    """Between the body (or the `=CRC` line) and the `-----END` line any number of line breaks may occur — the base64 layer eats
+    them only when they arrive in the same fill as the preceding characters, so whether the footer parser sees them depends on the
+    payload length.  Both alternatives of footer_parser therefore repeat `line_ending` (many0), they do not accept at most one."""
+    fp = ctx.body('armor::reader::footer_parser')
+    if fp is None:
+        return
+    many = [i for i, t in fp.calls(r'^nom::multi::many0$') if 'nom::character::streaming::line_ending' in (t['f'].get('full', '') or '') or 'line_ending' in (t['f'].get('full', '') or '')]
+    opts = [i for i, t in fp.calls(r'^nom::combinator::opt$') if 'line_ending' in (t['f'].get('full', '') or '')]
+    alts = len(fp.calls(r'^nom::sequence::delimited$'))
+    ctx.check(P + ':footer-blank-lines', 'R-table', 'each alternative of footer_parser skips any number of line breaks in front of the END line (many0(line_ending))',
+              alts >= 2 and len(many) >= alts and not opts, function=fp.path, sites=[site(fp, i) for i in many], alternatives=alts,
+              missing=None if (len(many) >= alts and not opts) else 'an alternative accepts at most one line break: %s' % [site(fp, i) for i in opts])
+
+
+def line_writer_flush_is_forwarding(ctx, P):
+    """`flush()` of the 64-column line writer only flushes the inner writer: the pending partial line stays buffered (its length is
+    the column counter and decides whether finish() ends the last line), so a source that flushes does not change the armor."""
+    cands = [p for p in ctx.f.bodies if p.startswith('<line_writer::LineWriter<') and p.endswith('as std::io::Write>::flush')]
+    if not cands:
+        return
+    b = ctx.body(cands[0])
+    calls = [t['f']['fn'] for i, t in b.calls()]
+    stores = [s_ for blk in b.blocks for s_ in blk['s'] if s_['d']['l'] == 1 and len(s_['d']['pr']) > 1]
+    ctx.check(P + ':line-writer-flush-forwards', 'R-who', 'LineWriter::flush forwards to the inner writer\'s flush and neither writes the pending partial line nor touches the column counter',
+              calls == ['std::io::Write::flush'] and not stores, function=b.path, calls=calls, missing=None if (calls == ['std::io::Write::flush'] and not stores) else 'calls %s, %d stores to self' % (calls, len(stores)))
+
+
 def run(ctx):
     P = 'C10'
     stream.r_lost(ctx, P, 'S10-1')
@@ -288,6 +316,8 @@ def run(ctx):
     header_key_line_bounded(ctx, P)
     checksum_token_bounded(ctx, P)
     headers_accumulate(ctx, P)
+    footer_tolerates_blank_lines(ctx, P)
+    line_writer_flush_is_forwarding(ctx, P)
     stream.partial_buffer_verdicts(ctx, P)
     # tolerant reading must not panic on any armored input: the R-panic inventory of C04 restricted to the armor / base64 / line-writer modules
     from rules import c04
